@@ -21,7 +21,8 @@ Say(tid, v) == PrintT(<<"VERDICT", tid, v>>)
 
 St0(N) == [taint |-> [vn \in VarNames |-> {}], cc |-> [vn \in VarNames |-> 0],
            stamp |-> [vn \in VarNames |-> [L \in LoopIds |-> 0]], it |-> [L \in LoopIds |-> 0],
-           last |-> [i \in 1..N |-> NoObj], linf |-> [i \in 1..N |-> NoT], hot |-> {}, stmt |-> 0, matched |-> {}]
+           last |-> [i \in 1..N |-> NoObj], linf |-> [i \in 1..N |-> NoT], hot |-> {}, stmt |-> 0, matched |-> {},
+           tact |-> {}, tmut |-> [T \in LoopIds |-> {}]]
 
 Known2(a, b) == a # NoObj /\ b # NoObj
 MaxOf(S) == IF S = {} THEN 0 ELSE CHOOSE m \in S : \A k \in S : k <= m
@@ -42,15 +43,24 @@ TupleAddSource(st, nd, ev) ==
     /\ Known2(st.last[nd.ch[1]], st.last[nd.ch[2]])
     /\ Dev_TupleAddDropsLeft(st.last[nd.ch[1]], st.last[nd.ch[2]], ev.v, ev.i)
 
+\* a call passed a variadic tuple[E, ...] argument through to a result whose type has an unpacked segment
+VariadicSource(st, nd, ev) ==
+    /\ nd.k = "Call" /\ ev.j /\ HasManyT(ev.i)
+    /\ \E a \in SeqToSet(nd.ch) : /\ st.last[a] # NoObj /\ st.last[a].c = "tuple" /\ st.last[a] \in SubObjs(ev.v)
+                                   /\ st.linf[a].k = "generic" /\ st.linf[a].c = "tuple" /\ Len(st.linf[a].args) = 1
+
 \* state after the evaluation event ev of node nd
 AfterEval(st, ev, nd) ==
     LET st1 == IF nd.s # st.stmt THEN [st EXCEPT !.hot = {}, !.stmt = nd.s] ELSE st
         add == (IF NumericSource(st1, nd, ev.v) THEN {KeyNumeric} ELSE {}) \cup (IF CrossEqSource(st1, nd, ev.v) THEN {KeyCrossEq} ELSE {})
+               \cup (IF nd.k = "Name" /\ Dev_AbstractTruthy(ev.v, ev.i) THEN {KeyAbsTruthy} ELSE {})
         rd == SeqToSet(nd.r)
     IN [st1 EXCEPT !.last[ev.n] = ev.v, !.linf[ev.n] = ev.i,
                    !.taint = [vn \in VarNames |-> IF vn \in rd THEN @[vn] \cup add ELSE @[vn]],
                    !.hot = @ \cup (IF TupleAddSource(st1, nd, ev) THEN {<<KeyTupleAdd, ev.n>>} ELSE {})
-                             \cup (IF nd.err THEN {<<KeyRejected, ev.n>>} ELSE {})]
+                             \cup (IF nd.err THEN {<<KeyRejected, ev.n>>} ELSE {})
+                             \cup (IF VariadicSource(st1, nd, ev) THEN {<<KeyVariadic, ev.n>>} ELSE {})
+                             \cup (IF Dev_AbstractTruthy(ev.v, ev.i) THEN {<<KeyAbsTruthy, ev.n>>} ELSE {})]
 
 HotKeys(st, S) == {h[1] : h \in {hh \in st.hot : hh[2] \in S}}
 NodeTaint(st, nd, ni) == UNION {st.taint[r] : r \in SeqToSet(nd.r)} \cup HotKeys(st, SeqToSet(nd.d) \cup {ni})
@@ -58,12 +68,28 @@ NodeTaint(st, nd, ni) == UNION {st.taint[r] : r \in SeqToSet(nd.r)} \cup HotKeys
 \* state after the assignment site s completed
 AfterStore(st, s) ==
     LET rd == SeqToSet(s.r)
+        cls == IF s.via # "" /\ s.recv > 0 THEN st.last[s.recv].c ELSE "?"
         tn == UNION {st.taint[r] : r \in rd} \cup (IF s.n > 0 THEN HotKeys(st, {s.n} \cup SeqToSet(s.d)) ELSE {})
+              \cup (IF Dev_UnmodelledMutator(cls, s.via) THEN {KeyUnmodelled} ELSE {})
+              \* t += u on tuples goes through tuple.__add__ (class (c)); the statement has no node of its own
+              \cup (IF s.via = "aug+" /\ cls = "tuple" /\ s.arg > 0 /\ st.last[s.arg].c = "tuple" /\ st.last[s.recv].items # << >>
+                    THEN {KeyTupleAdd} ELSE {})
+              \cup (IF s.arg > 0 /\ Dev_ListExtendKnown(cls, s.via, st.last[s.arg], st.linf[s.arg]) THEN {KeyExtendKnown} ELSE {})
         c == MaxOf({Carry(st, r) : r \in rd})
         names == SeqToSet(s.names)
     IN [st EXCEPT !.taint = [vn \in VarNames |-> IF vn \in names THEN tn ELSE @[vn]],
                   !.cc = [vn \in VarNames |-> IF vn \in names THEN c ELSE @[vn]],
-                  !.stamp = [vn \in VarNames |-> IF vn \in names THEN st.it ELSE @[vn]]]
+                  !.stamp = [vn \in VarNames |-> IF vn \in names THEN st.it ELSE @[vn]],
+                  \* containers mutated in place inside a try / with block that is still running
+                  !.tmut = [T \in LoopIds |-> IF s.via # "" /\ T \in st.tact THEN @[T] \cup names ELSE @[T]]]
+
+\* An exception left the block T (try body / with body) and was caught (handler entered, finally entered while the
+\* exception is in flight, suppressed by the context manager): the mutations the block performed before the exception
+\* through impl functions (list.append, dict.__setitem__, ...) are applied as constraints on the normal flow only and
+\* are not part of the state the checker continues with.
+Caught(st, T) == IF T \in st.tact
+                 THEN [st EXCEPT !.taint = [vn \in VarNames |-> IF vn \in st.tmut[T] THEN @[vn] \cup {KeyMutLost} ELSE @[vn]]]
+                 ELSE st
 
 Step(st, ev, o) ==
     CASE ev.k = "e" -> AfterEval(st, ev, o.nodes[ev.n])
@@ -76,6 +102,10 @@ Step(st, ev, o) ==
       \* cases matched (xm) / the end of the block containing it was reached (xb).  If a case matched, the checker's
       \* belief "no fall-through" was right for this execution, but it dropped the whole block from the merge that
       \* follows: the state it continues with describes the other paths only.
+      [] ev.k = "te" -> [st EXCEPT !.tact = @ \cup {ev.loop}, !.tmut[ev.loop] = {}]
+      [] ev.k = "tn" -> [st EXCEPT !.tact = @ \ {ev.loop}]
+      [] ev.k \in {"xh", "wq"} -> [Caught(st, ev.loop) EXCEPT !.tact = @ \ {ev.loop}]
+      [] ev.k = "xf" -> Caught(st, ev.loop)
       [] ev.k = "xs" -> [st EXCEPT !.matched = @ \ {ev.loop}]
       [] ev.k = "xm" -> [st EXCEPT !.matched = @ \cup {ev.loop}]
       [] ev.k = "xb" -> IF ev.loop \in st.matched
@@ -86,11 +116,16 @@ Step(st, ev, o) ==
 Classify(tid, i, st, ev, nd) ==
     LET tn == NodeTaint(st, nd, ev.n)
     IN IF KeyRejected \in tn THEN Say(tid, "dom:" \o KeyRejected \o ":" \o ToString(i))
+       ELSE IF KeyVariadic \in tn THEN Say(tid, "dom:" \o KeyVariadic \o ":" \o ToString(i))
        ELSE IF KeyCrossEq \in tn /\ ContainsNumeric(ev.v) THEN Say(tid, "dom:" \o KeyCrossEq \o ":" \o ToString(i))
        ELSE IF KeyNumeric \in tn /\ ContainsNumeric(ev.v) THEN Say(tid, "dev:" \o KeyNumeric \o ":" \o ToString(i))
        ELSE IF Dev_LoopCarried(st, SeqToSet(nd.r)) THEN Say(tid, "dev:" \o KeyLoop \o ":" \o ToString(i))
        ELSE IF KeyTupleAdd \in tn THEN Say(tid, "dev:" \o KeyTupleAdd \o ":" \o ToString(i))
        ELSE IF KeyMatchLeaves \in tn THEN Say(tid, "dev:" \o KeyMatchLeaves \o ":" \o ToString(i))
+       ELSE IF KeyUnmodelled \in tn THEN Say(tid, "dev:" \o KeyUnmodelled \o ":" \o ToString(i))
+       ELSE IF KeyExtendKnown \in tn THEN Say(tid, "dev:" \o KeyExtendKnown \o ":" \o ToString(i))
+       ELSE IF KeyMutLost \in tn THEN Say(tid, "dev:" \o KeyMutLost \o ":" \o ToString(i))
+       ELSE IF KeyAbsTruthy \in tn THEN Say(tid, "dev:" \o KeyAbsTruthy \o ":" \o ToString(i))
        ELSE IF ev.i = Never THEN Say(tid, "viol:NeverIsNeverReached:" \o ToString(i))
        ELSE Say(tid, "viol:Sound:" \o ToString(i))
 
